@@ -64,6 +64,24 @@ def fromNote (t : Tuning) (note : Note) (width : Int) : Except Err (List Line) :
     pure ((List.zip (List.range result.length) result).map (fun (i, ln) =>
       if i ≠ s then ln ++ rep '-' w ++ lit "|" else ln ++ centred (Note.showInt f) w)).reverse
 
+/-- the drawing step of `from_Note`: the fret number centred on string `s`, dashes on every other string -/
+def drawNote (result : List Line) (s : Nat) (f : Int) (w : Int) : List Line :=
+  ((List.zip (List.range result.length) result).map (fun (i, ln) =>
+    if i ≠ s then ln ++ rep '-' w ++ lit "|" else ln ++ centred (Note.showInt f) w)).reverse
+
+/-- `from_Note` on a note that carries `string` / `fret` attributes: when the tuning sounds exactly this note there, that
+    position is drawn; otherwise the lowest fret is searched as for any other note -/
+def fromNotePinned (t : Tuning) (note : Note) (ps pf : Int) (width : Int) : Except Err (List Line) := do
+  let result ← beginTrack t 2
+  let n ← getNote t ps pf 24
+  let ni ← n.toInt
+  let mi ← note.toInt
+  if ni = mi then
+    let l : Int := (result.headD []).length
+    let w := max 4 ((width - l) - 1)
+    pure (drawNote result ps.toNat pf w)
+  else fromNote t note width
+
 /-- `from_NoteContainer(notes, width, tuning)` -/
 def fromNC (t : Tuning) (notes : NC) (width : Int) : Except Err (List Line) := do
   let result ← beginTrack t 2
